@@ -62,6 +62,8 @@ def assist(project, source, position, filename=None, debug=False):
     attr = get_marked_atribute(source.tree)
     names = {}
     if attr:
+        # evaluating the receiver may come back to the attribute under the cursor
+        attr._orig.attr = attr.attr
         value = ctx.evaluate(attr.value)
         if value:
             names = value.attr_list(ctx)
